@@ -75,6 +75,14 @@ var (
 	dqIO         = call("pkg/durablequeue.segment.writeBytes", "pkg/durablequeue.segment.writeUint64", "pkg/durablequeue.segment.seekEnd",
 		"pkg/durablequeue.segment.seek", "pkg/durablequeue.segment.seekToCurrent", "pkg/durablequeue.segment.readUint64", "pkg/durablequeue.segment.readBytes",
 		"pkg/durablequeue.segment.repair", "pkg/durablequeue.segment.open", "os.File.Sync", "os.File.Truncate", "os.File.Seek", "bytes.Buffer.Write")
+	// dqAnchors: the call classes the C26 rules talk about. The path rules are
+	// evaluated on the CFG with every OTHER same-package helper (declared function
+	// or local closure) spliced in at its call site (core.(*Func).Inline), so that
+	// extracting a run of statements into a helper does not change a verdict.
+	dqAnchors = core.Or(dqIO, dqSegAppend, dqAdd, dqValue, dqAddSegment, dqTrim, call("bytes.Buffer.Reset"),
+		call("pkg/durablequeue.newSegment", "pkg/durablequeue.Queue.loadSegments", "pkg/durablequeue.segment.advanceTo"),
+		// segment.filePos is a position query (Seek(0, SeekCurrent)) that drops Seek's error by design; kept opaque
+		call("pkg/durablequeue.segment.filePos"))
 )
 
 // notAfterFailureN: no node selected by b is reachable from the failure branch of a call of class a.
@@ -82,11 +90,16 @@ func notAfterFailureN(r *core.Report, f *core.Func, g *core.Graph, rule, aName s
 	n := 0
 	ok := true
 	for _, an := range g.Select(g.Calling(a)) {
-		fail, _, has := g.ErrEdges(an)
+		// (also `return a(…)`: the forwarded error is tested at the spliced call
+		// site, or leaves the function)
+		fail, _, has, exit := g.ErrEdgesFwd(an)
 		if !has {
 			continue
 		}
 		n++
+		if exit {
+			continue
+		}
 		reach := g.Reach([]*core.Node{fail.To}, nil, nil)
 		for _, bn := range g.Select(b) {
 			if reach[bn] {
@@ -161,12 +174,13 @@ func runC26(p *core.Prog, r *core.Report, tier string) {
 	// ---- (1) segment.append
 	if f := r.Need(p, dqPkg, "segment.append"); f != nil {
 		const rule = "append-durable"
-		g, info := f.Graph(), f.Info()
+		in := f.Inline(dqAnchors)
+		g, info := in.G, f.Info()
 		sizeStore := g.Assigning(fSize)
 		bufWrite, bufReset := call("bytes.Buffer.Write"), call("bytes.Buffer.Reset")
-		core.RulePrecede(r, f, rule, "Buffer.Reset", bufReset, "Buffer.Write", bufWrite)
+		core.RulePrecedeG(r, g, f, rule, "Buffer.Reset", bufReset, "Buffer.Write", bufWrite)
 		dominatedBy(r, f, g, rule, "seekEnd", g.Calling(dqSeekEnd), "writeBytes", g.Calling(dqWriteBytes), 1)
-		core.RulePrecede(r, f, rule, "writeBytes", dqWriteBytes, "File.Sync", fileSync)
+		core.RulePrecedeG(r, g, f, rule, "writeBytes", dqWriteBytes, "File.Sync", fileSync)
 		// every staged piece (length, body, footer) is in scratch before the file write
 		ws := g.Select(g.Calling(bufWrite))
 		if r.Check(len(ws) >= 3, rule, f.String(), "Buffer.Write:count", f.Pos(), fmt.Sprintf("%d scratch writes (length, body, footer: >= 3)", len(ws))) {
@@ -178,12 +192,12 @@ func runC26(p *core.Prog, r *core.Report, tier string) {
 			}
 		}
 		// seekEnd(-footerSize): the entry overwrites the old footer
-		for _, c := range core.AllCalls(info, f.Decl.Body, dqSeekEnd) {
+		for _, c := range in.AllCalls(dqSeekEnd) {
 			want := constant.UnaryOp(token.SUB, footer.(*types.Const).Val(), 0)
-			v := core.ConstVal(info, c.Args[0])
+			v := core.ConstVal(info, in.ArgOf(c.Args[0]))
 			r.Check(v != nil && constant.Compare(v, token.EQL, want), rule, f.String(), "seekEnd-offset", p.Pos(c.Pos()), "the entry is written at end-footerSize (overwrites the old footer)")
 		}
-		core.RuleMustPass(r, f, rule, "File.Sync", fileSync, false)
+		core.RuleMustPassG(r, f, g, rule, "File.Sync", fileSync, false)
 		core.RuleMustPassN(r, f, g, rule, "size-update", sizeStore, nil)
 		dominatedBy(r, f, g, rule, "File.Sync", g.Calling(fileSync), "size-update", sizeStore, 1)
 		notAfterFailureN(r, f, g, rule, "writeBytes", dqWriteBytes, "size-update", core.AnyOf(sizeStore, g.Calling(fileSync)))
@@ -200,14 +214,16 @@ func runC26(p *core.Prog, r *core.Report, tier string) {
 				r.Check(returnsVar(g, exits, errSegFull), rule, f.String(), "full-returns-ErrSegmentFull", g.Line(e.From), "a full segment answers ErrSegmentFull (the queue rolls a new segment on that value)")
 			}
 		}
-		core.RuleErrorsUsed(r, f, rule, "seek/stage/write/sync", dqIO, false, 6)
+		core.RuleErrorsUsedInl(r, in, rule, "seek/stage/write/sync", dqIO, false, 6)
 	}
 
 	// ---- (2) segment.advanceTo
 	if f := r.Need(p, dqPkg, "segment.advanceTo"); f != nil {
 		const rule = "advance-durable"
-		g, info := f.Graph(), f.Info()
-		core.RuleOrder(r, f, rule, []string{"seekEnd", "writeUint64", "File.Sync"}, []core.Matcher{dqSeekEnd, dqWriteU64, fileSync})
+		in := f.Inline(dqAnchors)
+		g, info := in.G, f.Info()
+		core.RulePrecedeG(r, g, f, rule, "seekEnd", dqSeekEnd, "writeUint64", dqWriteU64)
+		core.RulePrecedeG(r, g, f, rule, "writeUint64", dqWriteU64, "File.Sync", fileSync)
 		// every `return nil` passes the footer write and the sync
 		nNil := 0
 		for _, gate := range []struct {
@@ -228,7 +244,7 @@ func runC26(p *core.Prog, r *core.Report, tier string) {
 		// never move backwards
 		posParam := f.Param(0)
 		isParam := func(e ast.Expr) bool {
-			return posParam != nil && core.ObjOf(info, core.StripConv(info, e)) == types.Object(posParam)
+			return posParam != nil && core.ObjOf(info, core.StripConv(info, in.ArgOf(core.StripConv(info, e)))) == types.Object(posParam)
 		}
 		forward := g.ExceedsEdge(isField(info, fPos), isParam, true)
 		stores := g.Select(g.Assigning(fPos))
@@ -237,17 +253,18 @@ func runC26(p *core.Prog, r *core.Report, tier string) {
 				r.Check(g.OnlyVia(s, forward), rule, f.String(), "pos-store-unguarded", g.Line(s), "the head position is stored only after the test that it does not move backwards")
 			}
 		}
-		for _, c := range core.AllCalls(info, f.Decl.Body, dqWriteU64) {
-			a := core.StripConv(info, c.Args[0])
+		for _, c := range in.AllCalls(dqWriteU64) {
+			a := core.StripConv(info, in.ArgOf(core.StripConv(info, c.Args[0])))
 			r.Check(isParam(a) || core.FieldOf(info, a) == fPos, rule, f.String(), "footer-value", p.Pos(c.Pos()), "the footer records the new head position")
 		}
-		core.RuleErrorsUsed(r, f, rule, "seek/write/sync/read", dqIO, false, 5)
+		core.RuleErrorsUsedInl(r, in, rule, "seek/write/sync/read", dqIO, false, 5)
 	}
 
 	// ---- (3) segment.open / segment.repair
 	if f := r.Need(p, dqPkg, "segment.open"); f != nil {
 		const rule = "open-repair"
-		g, info := f.Graph(), f.Info()
+		in := f.Inline(dqAnchors)
+		g, info := in.G, f.Info()
 		dominatedBy(r, f, g, rule, "File.Sync", g.Calling(fileSync), "size-update", g.Assigning(fSize), 2)
 		dominatedBy(r, f, g, rule, "writeUint64", g.Calling(dqWriteU64), "File.Sync", g.Calling(fileSync), 2)
 		verify := core.CallsField(fVerify)
@@ -277,22 +294,23 @@ func runC26(p *core.Prog, r *core.Report, tier string) {
 			r.Check(okEsc, rule, f.String(), "Sync-after-truncate", g.Line(vn), "after the truncation every non-error path syncs the rewritten footer")
 		}
 		r.Check(n >= 1, rule, f.String(), "verifyBlockFn:unchecked", f.Pos(), "the result of verifyBlockFn is tested")
-		for _, c := range core.AllCalls(info, f.Decl.Body, fileTruncate) {
-			r.Check(len(c.Args) == 1 && core.FieldOf(info, core.StripConv(info, c.Args[0])) == fPos, rule, f.String(), "Truncate-offset", p.Pos(c.Pos()), "the bad block is cut at the position of the current block")
+		for _, c := range in.AllCalls(fileTruncate) {
+			r.Check(len(c.Args) == 1 && core.FieldOf(info, core.StripConv(info, in.ArgOf(core.StripConv(info, c.Args[0])))) == fPos, rule, f.String(), "Truncate-offset", p.Pos(c.Pos()), "the bad block is cut at the position of the current block")
 		}
-		core.RuleErrorsUsed(r, f, rule, "segment io", dqIO, false, 14)
-		r.Check(len(core.AllCalls(info, f.Decl.Body, call("pkg/durablequeue.segment.repair"))) >= 3, rule, f.String(), "repair:count", f.Pos(), "corrupt footer / size / short block lead to repair (>= 3 sites)")
+		core.RuleErrorsUsedInl(r, in, rule, "segment io", dqIO, false, 14)
+		r.Check(len(in.AllCalls(call("pkg/durablequeue.segment.repair"))) >= 3, rule, f.String(), "repair:count", f.Pos(), "corrupt footer / size / short block lead to repair (>= 3 sites)")
 	}
 	if f := r.Need(p, dqPkg, "segment.repair"); f != nil {
 		const rule = "open-repair"
-		g := f.Graph()
-		core.RulePrecede(r, f, rule, "writeUint64", dqWriteU64, "File.Sync", fileSync)
+		in := f.Inline(dqAnchors)
+		g := in.G
+		core.RulePrecedeG(r, g, f, rule, "writeUint64", dqWriteU64, "File.Sync", fileSync)
 		dominatedBy(r, f, g, rule, "File.Sync", g.Calling(fileSync), "size-update", g.Assigning(fSize), 1)
-		core.RuleMustPass(r, f, rule, "File.Sync", fileSync, false)
+		core.RuleMustPassG(r, f, g, rule, "File.Sync", fileSync, false)
 		core.RuleMustPassN(r, f, g, rule, "size-update", g.Assigning(fSize), nil)
 		ruleNoneAfter(r, f, g, rule, "writeUint64", g.Calling(dqWriteU64), "File.Truncate", g.Calling(fileTruncate))
-		core.RuleHasCall(r, f, rule, "File.Truncate", fileTruncate)
-		core.RuleErrorsUsed(r, f, rule, "segment io", dqIO, false, 6)
+		r.Check(len(in.AllCalls(fileTruncate)) >= 1, rule, f.String(), "File.Truncate:absent", f.Pos(), "repair truncates the file at the block position")
+		core.RuleErrorsUsedInl(r, in, rule, "segment io", dqIO, false, 6)
 	}
 	if f := r.Need(p, dqPkg, "newSegment"); f != nil {
 		core.RuleMustPass(r, f, "open-repair", "segment.open", call("pkg/durablequeue.segment.open"), false)
@@ -302,7 +320,8 @@ func runC26(p *core.Prog, r *core.Report, tier string) {
 	// ---- (4) Queue.Append, trimHead accounting
 	if f := r.Need(p, dqPkg, "Queue.Append"); f != nil {
 		const rule = "append-limit"
-		g, info := f.Graph(), f.Info()
+		in := f.Inline(dqAnchors)
+		g, info := in.G, f.Info()
 		apps := g.Select(g.Calling(dqSegAppend))
 		adds := g.Select(g.Calling(dqAdd))
 		if r.Check(len(apps) >= 2 && len(adds) >= 1, rule, f.String(), "append/Add:absent", f.Pos(), "tail.append (first try and retry) and queueTotalSize.Add found") {
@@ -338,7 +357,7 @@ func runC26(p *core.Prog, r *core.Report, tier string) {
 				for _, a := range adds {
 					r.Check(g.OnlyVia(a, okEdge), rule, f.String(), "Add-without-success", g.Line(a), "queueTotalSize.Add happens only under err == nil")
 					for _, c := range core.CallsIn(info, a.N, dqAdd, core.WalkOpts{}) {
-						r.Check(len(c.Args) == 1 && core.ObjOf(info, c.Args[0]) == nVar, rule, f.String(), "Add-amount", p.Pos(c.Pos()), "the counter grows by the byte count tail.append returned")
+						r.Check(len(c.Args) == 1 && core.ObjOf(info, in.ArgOf(c.Args[0])) == nVar, rule, f.String(), "Add-amount", p.Pos(c.Pos()), "the counter grows by the byte count tail.append returned")
 					}
 				}
 				es := g.Edges(okEdge)
@@ -363,12 +382,13 @@ func runC26(p *core.Prog, r *core.Report, tier string) {
 				}
 			}
 		}
-		core.RuleMustPass(r, f, rule, "segment.append", dqSegAppend, false)
-		core.RuleErrorsUsed(r, f, rule, "append/addSegment", core.Or(dqSegAppend, dqAddSegment), false, 3)
+		core.RuleMustPassG(r, f, g, rule, "segment.append", dqSegAppend, false)
+		core.RuleErrorsUsedInl(r, in, rule, "append/addSegment", core.Or(dqSegAppend, dqAddSegment), false, 3)
 	}
 	if f := r.Need(p, dqPkg, "Queue.trimHead"); f != nil {
-		core.RuleMustPass(r, f, "append-limit", "queueTotalSize.Add", dqAdd, false)
-		core.RuleErrorsUsed(r, f, "append-limit", "addSegment", dqAddSegment, false, 1)
+		in := f.Inline(dqAnchors)
+		core.RuleMustPassG(r, f, in.G, "append-limit", "queueTotalSize.Add", dqAdd, false)
+		core.RuleErrorsUsedInl(r, in, "append-limit", "addSegment", dqAddSegment, false, 1)
 	}
 
 	// ---- (5) trim only when the head segment is drained / broken
@@ -384,7 +404,7 @@ func runC26(p *core.Prog, r *core.Report, tier string) {
 			if f == nil {
 				continue
 			}
-			g, info := f.Graph(), f.Info()
+			g, info := f.Inline(dqAnchors).G, f.Info()
 			drained := func(e *core.Edge) bool {
 				for _, ft := range core.EdgeFacts(e) {
 					if be, ok := ft.Cond.(*ast.BinaryExpr); ok && be.Op == token.EQL && ft.Truth || ok && be.Op == token.NEQ && !ft.Truth {
@@ -407,7 +427,12 @@ func runC26(p *core.Prog, r *core.Report, tier string) {
 	}
 
 	// ---- (6) guarded-by
-	core.RuleLocks(r, p, dqLocks, "guarded-by", 120)
+	// methods extracted from a locked region (not in the table) are checked at their call sites
+	locks, inferred := core.InferCallerHolds(p, dqLocks)
+	for _, name := range inferred {
+		r.Note("guarded-by: %s is not in the lock table; it touches guarded state of its receiver without locking, so it is checked as a caller-holds helper at its call sites", name)
+	}
+	core.RuleLocks(r, p, locks, "guarded-by", 120)
 }
 
 // usesObj: e is (a selector/identifier denoting) obj.
